@@ -111,7 +111,7 @@ def run(prop: str, tier: str) -> int:
         "decoders are deterministic functions of the text they are given (checked: a text searched twice must yield equal hits)",
     ]
     # 1. the specification itself
-    engine.model_check(res, ["q"] if tier == "quick" else ["q", "t3", "t4", "t2"])
+    engine.model_check(res, ["q"] if tier == "quick" else ["q", "t3", "t4", "t2", "n4"])
     if prop in ASIS_BREAKS:
         engine.non_vacuity(res, ASIS_BREAKS[prop])
     res.coverage["properties_checked_by_tlc"] = INV_OF[prop]
@@ -127,8 +127,11 @@ def run(prop: str, tier: str) -> int:
         p3 = os.path.join(work, "worlds-t3.ndjson")
         _t, n3 = engine.replay_worlds("t3s", 1500, p3, lo=(prop == "C07"), subs=(prop == "C08"))
         jobs.append((p3, n3))
+        p4 = os.path.join(work, "worlds-n4.ndjson")
+        _t, n4 = engine.replay_worlds("n4", 1500, p4, lo=(prop == "C07"), subs=(prop == "C08"))
+        jobs.append((p4, n4))
     if tier == "thorough":
-        for fam in ("t3", "t4", "t2"):
+        for fam in ("t3", "t4", "t2", "n4"):
             p2 = os.path.join(work, f"worlds-{fam}.ndjson")
             _t, n2 = engine.replay_worlds(fam, 15000, p2, lo=(prop == "C07"), subs=(prop == "C08"))
             jobs.append((p2, n2))
